@@ -1,5 +1,5 @@
 (* C15/Proofs.v — lemmas about the scanner traversal, the manifest writer and the CLI glue. *)
-From Coq Require Import ZArith List Bool Lia String Ascii Permutation.
+From Coq Require Import ZArith List Bool Lia String Ascii Permutation Sorted.
 From Verif Require Import C15.Model.
 Import ListNotations.
 Open Scope Z_scope.
@@ -24,6 +24,127 @@ Lemma In_mem : forall x l, In x l -> mem x l = true.
 Proof.
   induction l as [|y l IH]; cbn; intros H; [contradiction|].
   destruct H as [->|H]; [now rewrite str_eqb_refl | rewrite IH by assumption; apply orb_true_r].
+Qed.
+
+Lemma dedup_In_inv : forall l y, In y (dedup l) -> In y l.
+Proof.
+  induction l as [|x l IH]; cbn; intros y H; [contradiction|].
+  destruct H as [H|H]; [now left|]. apply filter_In in H as [H _]. right. now apply IH.
+Qed.
+
+Lemma dedup_In : forall l y, In y l -> In y (dedup l).
+Proof.
+  induction l as [|x l IH]; cbn; intros y H; [contradiction|].
+  destruct (str_eqb x y) eqn:E; [left; now apply str_eqb_eq|].
+  destruct H as [H|H]; [left; exact H|]. right. apply filter_In. split; [now apply IH | now rewrite E].
+Qed.
+
+(* ------------------------------------------------------------------ the order on strings, sort by key *)
+Ltac zcmp := repeat match goal with
+  | |- context [?a <? ?b] => destruct (Z.ltb_spec a b)
+  | H : context [?a <? ?b] |- _ => destruct (Z.ltb_spec a b)
+  end.
+
+Lemma str_leb_total : forall a b, str_leb a b = true \/ str_leb b a = true.
+Proof.
+  induction a as [|x a IH]; destruct b as [|y b]; cbn; auto.
+  zcmp; auto; try lia.
+Qed.
+
+Lemma str_leb_antisym : forall a b, str_leb a b = true -> str_leb b a = true -> a = b.
+Proof.
+  induction a as [|x a IH]; destruct b as [|y b]; cbn; intros H1 H2; try discriminate; [reflexivity|].
+  zcmp; try discriminate; try lia. assert (x = y) by lia. subst. f_equal. now apply IH.
+Qed.
+
+Lemma str_leb_trans : forall a b c, str_leb a b = true -> str_leb b c = true -> str_leb a c = true.
+Proof.
+  induction a as [|x a IH]; destruct b as [|y b]; destruct c as [|z c]; cbn; intros H1 H2; try discriminate; auto.
+  zcmp; try discriminate; try lia; auto. eapply IH; eauto.
+Qed.
+
+Lemma str_leb_refl : forall a, str_leb a a = true.
+Proof. intros a. destruct (str_leb_total a a); assumption. Qed.
+
+Section KeyedSort.
+Context {V : Type}.
+Definition kle (a b : str * V) : Prop := str_leb (fst a) (fst b) = true.
+
+Lemma kinsert_perm : forall (x : str * V) l, Permutation (kinsert x l) (x :: l).
+Proof.
+  induction l as [|y l IH]; cbn; [apply Permutation_refl|].
+  destruct (str_leb (fst x) (fst y)); [apply Permutation_refl|].
+  eapply perm_trans; [apply perm_skip; exact IH | apply perm_swap].
+Qed.
+
+Lemma ksort_perm : forall (l : list (str * V)), Permutation (ksort l) l.
+Proof.
+  induction l as [|x l IH]; cbn; [apply perm_nil|].
+  eapply perm_trans; [apply kinsert_perm | now apply perm_skip].
+Qed.
+
+Lemma kinsert_sorted : forall (x : str * V) l, StronglySorted kle l -> StronglySorted kle (kinsert x l).
+Proof.
+  induction l as [|y l IH]; cbn; intros H; [repeat constructor|].
+  inversion H as [|? ? HS HF]; subst.
+  destruct (str_leb (fst x) (fst y)) eqn:E.
+  - constructor; [exact H|]. constructor; [exact E|].
+    eapply Forall_impl; [|exact HF]. intros z Hz. unfold kle in *. eapply str_leb_trans; eauto.
+  - constructor; [now apply IH|].
+    assert (Hyx : kle y x) by (unfold kle; destruct (str_leb_total (fst x) (fst y)) as [T|T]; [rewrite T in E; discriminate | exact T]).
+    eapply Permutation_Forall; [apply Permutation_sym; apply kinsert_perm|]. constructor; assumption.
+Qed.
+
+Lemma ksort_sorted : forall (l : list (str * V)), StronglySorted kle (ksort l).
+Proof. induction l as [|x l IH]; cbn; [constructor | now apply kinsert_sorted]. Qed.
+
+Lemma nodup_key_inj : forall (l : list (str * V)) a b,
+  NoDup (map fst l) -> In a l -> In b l -> fst a = fst b -> a = b.
+Proof.
+  induction l as [|x l IH]; cbn; intros a b ND Ia Ib E; [contradiction|].
+  inversion ND as [|? ? N ND']; subst.
+  destruct Ia as [Ia|Ia]; destruct Ib as [Ib|Ib]; subst.
+  - reflexivity.
+  - exfalso. apply N. rewrite E. now apply in_map.
+  - exfalso. apply N. rewrite <- E. now apply in_map.
+  - now apply IH.
+Qed.
+
+Lemma ksorted_unique : forall (l1 l2 : list (str * V)),
+  NoDup (map fst l1) -> StronglySorted kle l1 -> StronglySorted kle l2 -> Permutation l1 l2 -> l1 = l2.
+Proof.
+  induction l1 as [|a l1 IH]; intros l2 ND S1 S2 P.
+  - symmetry. now apply Permutation_nil.
+  - destruct l2 as [|b l2]; [apply Permutation_sym, Permutation_nil in P; discriminate|].
+    inversion S1 as [|? ? S1' F1]; inversion S2 as [|? ? S2' F2]; subst.
+    assert (E : a = b).
+    { assert (Ia : In a (b :: l2)) by (eapply Permutation_in; [exact P | now left]).
+      assert (Ib : In b (a :: l1)) by (eapply Permutation_in; [apply Permutation_sym; exact P | now left]).
+      destruct Ia as [Ia|Ia]; [now symmetry|]. destruct Ib as [Ib|Ib]; [assumption|].
+      apply (nodup_key_inj (a :: l1)); [exact ND | now left | now right |].
+      apply str_leb_antisym.
+      - exact (proj1 (Forall_forall _ _) F1 b Ib).
+      - exact (proj1 (Forall_forall _ _) F2 a Ia). }
+    subst b. f_equal. apply IH; try assumption.
+    + now inversion ND.
+    + now apply Permutation_cons_inv in P.
+Qed.
+
+(* the result of sorting the entries of a HashMap (distinct keys) does not depend on the iteration order *)
+Lemma ksort_order_free : forall (l1 l2 : list (str * V)),
+  NoDup (map fst l1) -> Permutation l1 l2 -> ksort l1 = ksort l2.
+Proof.
+  intros l1 l2 ND P. apply ksorted_unique; try apply ksort_sorted.
+  - eapply Permutation_NoDup; [apply Permutation_map, Permutation_sym, ksort_perm | exact ND].
+  - eapply perm_trans; [apply ksort_perm|]. eapply perm_trans; [exact P|]. apply Permutation_sym, ksort_perm.
+Qed.
+End KeyedSort.
+
+Lemma in_ksort : forall (V : Type) (l : list (str * V)) x, In x (ksort l) <-> In x l.
+Proof.
+  intros V l x. split; intros H.
+  - eapply Permutation_in; [apply ksort_perm | exact H].
+  - eapply Permutation_in; [apply Permutation_sym, ksort_perm | exact H].
 Qed.
 
 (* ------------------------------------------------------------------ the traversal *)
@@ -102,7 +223,7 @@ Proof.
   - apply in_dep_names_fixed. now apply mem_In.
   - unfold dep_names, deps. rewrite map_app. apply in_or_app. right. unfold rust_deps.
     rewrite map_map. apply in_map_iff. exists (c, v). split; [reflexivity|].
-    apply filter_In. split; [assumption|]. cbn [fst]. now rewrite E.
+    apply filter_In. split; [now apply (proj2 (in_ksort _ _ _))|]. cbn [fst]. now rewrite E.
 Qed.
 
 Lemma stdlib_declared : forall g, In (s "incan_stdlib") (dep_names g) /\ In (s "incan_derive") (dep_names g).
@@ -148,7 +269,7 @@ Qed.
 Lemma rust_dep_only : forall g c, In c (map fst (rust_deps g)) -> exists v, In (c, v) (g_crates g).
 Proof.
   intros g c H. unfold rust_deps in H. rewrite map_map in H. apply in_map_iff in H as [[c' v] [E H]].
-  cbn in E. subst c'. apply filter_In in H as [H _]. now exists v.
+  cbn in E. subst c'. apply filter_In in H as [H _]. apply (proj1 (in_ksort _ _ _)) in H. now exists v.
 Qed.
 
 (* pinned *)
@@ -170,7 +291,7 @@ Lemma deps_pinned : forall g,
 Proof.
   intros g HS NK. unfold deps. rewrite forallb_app, fixed_pinned. cbn.
   apply forallb_forall. intros d Hd. unfold rust_deps in Hd. apply in_map_iff in Hd as [[c v] [E H]].
-  apply filter_In in H as [H M]. cbn [fst] in M. apply negb_true_iff in M. subst d. unfold dep_pinned, crate_dep. cbn.
+  apply filter_In in H as [H M]. apply (proj1 (in_ksort _ _ _)) in H. cbn [fst] in M. apply negb_true_iff in M. subst d. unfold dep_pinned, crate_dep. cbn.
   destruct v as [sp|]; [now apply (HS c sp) | exfalso; apply NK; now exists c].
 Qed.
 
